@@ -1,5 +1,22 @@
-//! Conformance harness for property C20, see /verif/DESIGN.md.
+//! Conformance harness for property C20 (option syntax of built-ins), see
+//! /verif/DESIGN.md section 6 "C20" and spec/OptParse.tla.
+mod core;
+
 fn main() {
-    eprintln!("yv-c20: not implemented yet");
-    std::process::exit(2);
+    let args: Vec<String> = std::env::args().collect();
+    if args.len() < 2 {
+        eprintln!("usage: yv-c20 <enum|random|redo> ...");
+        std::process::exit(2);
+    }
+    let rest = &args[2..];
+    let code = match args[1].as_str() {
+        "enum" => core::enumerate(rest),
+        "random" => core::random(rest),
+        "redo" => core::redo(rest),
+        other => {
+            eprintln!("unknown subcommand {other}");
+            2
+        }
+    };
+    std::process::exit(code);
 }
